@@ -13,6 +13,7 @@ import Proofs.NoIdleBack
 import Proofs.OneSet
 import Proofs.TeamSame
 import Proofs.TeamFit
+import Proofs.EffortAlt
 import Properties.C09
 /-! driver command `J {"op":"sched", …}`: run the scheduler model on one scenario projection -/
 namespace SPD
@@ -271,6 +272,16 @@ def runSched (j : Json) : Json :=
     let sel := (e.taskD t).alloc
     let slots := ((σ.led.m.toList.filter (fun (ks : Key × Slot) => sel.contains ks.1.1 && (usageOf ks.2.usage t).isSome)).map (fun ks => ks.1.2)).eraseDups
     !(slots.all (fun i => sel.all (fun r => usageOf (σ.led.get r i).usage t == usageOf (σ.led.get (sel.headD 0) i).usage t))))
+  -- C03.effort_exact_with_alternative: one primary, one alternative
+  let altTasks := (List.range e.tasks.size).filter (fun t =>
+    let d := e.taskD t
+    d.leaf && d.hasAlloc && !d.milestone && decide (d.effort > 0) && d.alloc.length == 1 && d.alt.length == 1 && (σ.tst t).scheduled)
+  let altFail := altTasks.filter (fun t =>
+    let cands := (e.taskD t).alloc ++ (e.taskD t).alt
+    !(cands.any (fun r =>
+      let secs := σ.led.m.toList.foldl (fun (acc : Rat) (ks : Key × Slot) =>
+        if ks.1.1 == r then acc + (usageOf ks.2.usage t).getD 0 else acc) 0
+      secs / 3600 * (e.resD r).eff == (e.taskD t).effort)))
   -- C03.bookings_on_one_candidate_set
   let oneSetFail := (List.range e.tasks.size).filter (fun t =>
     let rs := ((σ.led.m.toList.filter (fun (ks : Key × Slot) => (usageOf ks.2.usage t).isSome)).map (fun ks => ks.1.1)).eraseDups
@@ -320,6 +331,7 @@ def runSched (j : Json) : Json :=
                          ("effort_exact_fail", Json.num (JsonNumber.fromNat effortFail.length)),
                          ("teams_scheduled", Json.num (JsonNumber.fromNat teams.length)), ("team_exact_fail", Json.num (JsonNumber.fromNat teamFail.length)),
                          ("one_set_fail", Json.num (JsonNumber.fromNat oneSetFail.length)),
+                         ("alt_tasks", Json.num (JsonNumber.fromNat altTasks.length)), ("alt_effort_fail", Json.num (JsonNumber.fromNat altFail.length)),
                          ("teams_any", Json.num (JsonNumber.fromNat anyTeams.length)), ("team_same_fail", Json.num (JsonNumber.fromNat sameFail.length)),
                          ("fwd_scheduled", Json.num (JsonNumber.fromNat fwds.length)), ("dep_edges", Json.num (JsonNumber.fromNat depPairs.length)),
                          ("dep_fail", Json.num (JsonNumber.fromNat depFail.length)),
